@@ -128,6 +128,17 @@ impl<Key, Value> Store<Key, Value>
         None
     }
 
+    /// Deletes the key only if the stored entry still belongs to `key_id`.
+    /// Used by the expiry sweeper: by the time it removes the store entry of an expired key id, the key may have been
+    /// deleted and put again (a new key id), and that new entry must not be removed.
+    pub(crate) fn delete_if_key_id_matches(&self, key: &Key, key_id: KeyId) -> Option<KeyIdExpiry> {
+        if let Some(pair) = self.store.remove_if(key, |_, stored_value| stored_value.key_id() == key_id) {
+            self.stats_counter.delete_key();
+            return Some(KeyIdExpiry(pair.1.key_id(), pair.1.expire_after()));
+        }
+        None
+    }
+
     pub(crate) fn mark_deleted(&self, key: &Key) {
         if let Some(mut pair) = self.store.get_mut(key) {
             let stored_value = pair.value_mut();
